@@ -250,6 +250,9 @@ def run(rep, facts, tier):
     # and the next ACKNACK then acknowledges a sample that was never received (shared with C01 R01.7 / C14 R14.5; added after seed C03e)
     from rules import numberset
     numberset.run_rule(rep, fx, 'R03.13')
+    # R03.14 the request onto the wire (mutation round 4: the writer-side twin, a deleted send_to_locator, survived everything)
+    from rules import builtsent
+    builtsent.run_reader_wire(rep, fx, 'R03.14')
     from rules import numberset as _ns
     _ns.rule_from_base_and_set(rep, fx, 'R03.10')
 
